@@ -86,6 +86,7 @@ func (evt *catchEvent) run(ctx context.Context, sender tracing.ISenderHandle) {
 					evt.tracer.Send(ActiveListeningTrace{Node: evt.element})
 				}
 				evt.awaitingActions = append(evt.awaitingActions, m.response)
+				verifAt("catch.arm", evt.element)
 			}
 		case <-ctx.Done():
 			evt.tracer.Send(CancellationFlowNodeTrace{Node: evt.element})
